@@ -64,7 +64,7 @@ def run(tier, replay=None):
                 raise core.MachineryFailure('vacuity guard: Eval.tla without the guard no longer violates Bounded')
             ck.add_tlc([r_g, r_u, r_g4, r_m])
             gs = [r for r in r_g.records if isinstance(r, dict) and 'succ' in r]
-            if len(gs) != 3375:
+            if len(gs) != 5832:
                 raise core.MachineryFailure('Eval.tla produced %d graphs' % len(gs))
             gs.sort(key=lambda r: json.dumps(r, sort_keys=True))
             cyc = [g for g in gs if any(k != 'const' for k in g['kind'])]
@@ -153,7 +153,7 @@ def run(tier, replay=None):
                          'calls': ck.traces, 'mutated_texts': len([c for c in cases if c.get('muts')])})
         ck.rule = ('texts = real files (repository + standard-library sample), their typing-state mutations (every sequence of <= 2 of 7 mutations is '
                    'enumerated by TLC; a seeded sample per file), hand-written snippets around special constructs with EVERY cursor position, generated '
-                   'programs, and definition graphs over 3 nodes with cycles (all 3375 graphs of Eval.tla model-checked, a sample rendered into 1-4 project '
+                   'programs, and definition graphs over 3 nodes with cycles (all 5832 graphs of Eval.tla model-checked, a sample rendered into 1-4 project '
                    'modules); per text lint + assist/location at seeded cursors (biased to identifier ends and dots); each call under a %d s limit; '
                    'non-trivial = an assist/location call whose marked text parses; distinct by (text, op, cursor)' % c08_worker.LIMIT)
         ck.exhaustive = False
